@@ -149,6 +149,10 @@ def pick_command(rng, proj, sent, recipe, covered, outdir):
     # download only ever *adds* files: a target that exists already (also as a link to somewhere else) is not in the write set
     allowed = {"proj/LICENSES"} | {f"proj/LICENSES/{i}.txt" for i in ids
                                     if i.startswith("LicenseRef-") and not os.path.lexists(proj / "LICENSES" / f"{i}.txt")}
+    if ids == ["--all"]:
+        # every missing licence may be added; LicenseRef- ones are created locally even though the network is refused
+        allowed |= {"proj/LICENSES/" + n for n in [i + ".txt" for i in trees.REF_IDS + ["LicenseRef-special"]]
+                    if not os.path.lexists(proj / "LICENSES" / n)}
     if extra and extra[1].endswith("odir"):
         allowed |= {f"sentinel/odir/{i}.txt" for i in ids if i.startswith("LicenseRef-")}  # written by the harness itself, before the snapshot
     return gl, ["download"] + extra + ids, allowed, "download"
